@@ -12,7 +12,7 @@ META = {
     "note": "Trusted: g++, libm (same library on both sides), ctypes calling convention (layouts cross-checked with offsetof). Points where the reference is non-finite, outside a domain, or where a comparison of the law is decided by rounding are skipped and counted. Numbers are declared with <= 5 significant digits in the main stratum; the 'long-digits' stratum (8..12 digits) is where printing-precision defects of the generator show.",
 }
 
-QUICK = {"function": 24, "data": 6, "points": 200}
+QUICK = {"function": 24, "data": 18, "points": 200}
 THOROUGH = {"function": 240, "data": 60, "points": 200}
 
 # small fixed witnesses of front-end forms that the random programs avoid (each has its own key)
@@ -44,9 +44,16 @@ def make_programs(ctx):
         # under @UseQt `c ? 2.5 : x` mixes double and qt<NoUnit> operands, which C++ rejects: no conditional there
         spec = mpgen.random_spec(rng, i, digits=digits, useqt=useqt, layout=layout, conditional=not useqt)
         progs.append({"spec": spec, "rng": rng, "text": mpgen.mfront_text(spec, rng)})
+    combos = mpgen.DATA_COMBINATIONS
     for i in range(n["data"]):
         rng = vfcore.rng(ctx.seed, "c37", "d", i)
-        spec = mpgen.random_data_spec(rng, 1000 + i)
+        # every documented spelling of (interpolation, extrapolation) on a real table (>= 2 nodes) in turn; after each full
+        # cycle three free programs (no input, single node, random options)
+        j = i % (len(combos) + 3)
+        if j < len(combos):
+            spec = mpgen.random_data_spec(rng, 1000 + i, interp=combos[j][0], extra=combos[j][1], has_in=True, nodes=rng.choice((2, 3, 4, 5, 8)))
+        else:
+            spec = mpgen.random_data_spec(rng, 1000 + i, has_in=(j != len(combos)), nodes=1 if j == len(combos) + 1 else None)
         progs.append({"spec": spec, "rng": rng, "text": mpgen.mfront_text(spec, rng)})
     return progs, n["points"]
 
@@ -61,6 +68,21 @@ def stratum(spec):
     if spec["digits"] == "long":
         s += "+long-digits"
     return s
+
+
+def data_options(spec):
+    d = spec["data"]
+    if not spec["inputs"]:
+        return "no-input"
+    sp = lambda v: "absent" if v is None else ("true" if v is True else "false" if v is False else '"%s"' % v)
+    return "interpolation=%s:extrapolation=%s%s" % (sp(d["interp_decl"]), sp(d["extrapolation"]), ":single-node" if len(d["x"]) == 1 else "")
+
+
+def outside_table(spec, pt):
+    if not spec["inputs"]:
+        return False
+    x = [float(v) for v in spec["data"]["x"]]
+    return pt[0] < x[0] or pt[0] > x[-1]
 
 
 def tolerance(spec, ref, eb):
@@ -92,6 +114,9 @@ def judge(ctx, prog, iface, scen, calls, pts, pvals, stats):
         tol = tolerance(spec, ref, eb)
         err = abs(obs - ref) if obs == obs else float("inf")
         stats["n"] += 1
+        if spec["kind"] == "data" and outside_table(spec, pt):
+            d = ctx.cov.setdefault("data_outside_table_points_judged", {})
+            d[data_options(spec)] = d.get(data_options(spec), 0) + 1
         if err <= tol:          # ratio over the accepted values (the violating ones are reported one by one)
             stats["max_ratio"] = max(stats["max_ratio"], err / tol)
         case = {"file": mpgen.fname(spec) + ".mfront", "mfront": prog["text"], "interface": iface, "scenario": scen, "args": pt,
@@ -104,6 +129,8 @@ def judge(ctx, prog, iface, scen, calls, pts, pvals, stats):
         if err <= tol:
             continue
         key = "%s:%s:value-differs" % (iface, scen)
+        if spec["kind"] == "data":
+            key = "%s:data:%s:%s:value-differs" % (iface, data_options(spec), "outside-table" if outside_table(spec, pt) else "inside-table")
         if p6 and scen != "parameter-file" and spec["kind"] == "function":
             # would the value be explained by defaults written with a stream's default precision?
             r6 = mpgen.law_value(spec, pt, dict(p6, **(pvals or {})))
@@ -248,6 +275,11 @@ def run(ctx):
             i0 = sorted(res["first"])[0]
             ctx.sample({"file": mpgen.fname(spec), "stratum": stratum(spec), "interface": i0, "args": p["pts"][0] if p["pts"] else [],
                         "value": repr(mpgen.unf(res["first"][i0][0]["v"])) if res["first"][i0] else None})
+    seen = ctx.cov.get("data_outside_table_points_judged", {})
+    for it, ex in mpgen.DATA_COMBINATIONS:
+        spec0 = {"inputs": [1], "data": {"interp_decl": it, "extrapolation": ex, "x": [0, 1]}}
+        k = data_options(spec0)
+        ctx.require(seen.get(k, 0) >= 10, "@Data spelling %s: %d < 10 points outside the table judged" % (k, seen.get(k, 0)))
     tab = ctx.cov.setdefault("strata", {})
     for (iface, scen), s in sorted(stats.items()):
         ctx.add_eval(s["n"])
